@@ -40,7 +40,10 @@ TEXTS = [('a', ''), ('a', 'v'), ('b', 'ü€'), ('a;b', 'x=y;z'), ('a=b', ' lead
 FILES = [('f', 'f.txt', 'text/plain', b''), ('f', 'my;file.txt', 'text/plain', b'x'), ('g', 'a=b.bin', 'application/octet-stream', bytes(range(256))),
          ('a', 'ü.txt', 'text/plain', SOUP), ('f', 'c:\\d\\f.txt', 'application/octet-stream', b'x'), ('h', 'sp ace.txt', 'text/plain', b'\r\n'),
          ('a;b', 'n.bin', 'application/octet-stream', b'--'), ('g', 'f.txt', 'text/plain', b'second'), ('ü', 'ü€.txt', 'text/plain', 'ü€'.encode('utf8')),
-         ('b', "it's.txt", 'text/plain', b'-'), ('f', 'f.txt', 'image/png', b'\x89PNG\r\n\x1a\n'), ('a=b', 'x', 'text/plain', b'\r\n--')]
+         ('b', "it's.txt", 'text/plain', b'-'), ('f', 'f.txt', 'image/png', b'\x89PNG\r\n\x1a\n'), ('a=b', 'x', 'text/plain', b'\r\n--'),
+         # uploads that send no Content-Type of their own, and UNC-style names with runs of backslashes
+         ('f', 'raw.bin', None, b'no-ctype'), ('g', '\\\\srv\\share\\r.txt', None, b'unc')]
+TEXTS += [('k\\\\v', 'two backslashes'), ('k\\v', 'one backslash')]
 
 
 def universe():
@@ -48,7 +51,7 @@ def universe():
     return u
 
 
-CORE = [0, 1, 3, 5, 9, 12, 13, 15, 18, 19]
+CORE = [0, 1, 3, 5, 9, 12, 13, 15, 20, 21, 24, 25]
 
 
 def encode(parts, boundary):
@@ -79,7 +82,7 @@ def model(parts):
             put(forms, p[1], ('text', p[2]))
             put(post, p[1], ('text', p[2]))
         else:
-            up = ('file', p[2], p[3], p[4])
+            up = ('file', p[2], p[3], p[4], ('content-disposition',) + (('content-type',) if p[3] else ()))
             put(files, p[1], up)
             put(post, p[1], up)
 
@@ -119,7 +122,7 @@ def see(v):
     ct = getattr(ct, 'value', ct)
     f = v.file
     f.seek(0)
-    return ('file', v.raw_filename, ct, f.read())
+    return ('file', v.raw_filename, ct or None, f.read(), tuple(sorted(str(k).lower() for k in v.headers.keys())))
 
 
 def post_once(om, parts, boundary, quoted, M, framing):
@@ -181,7 +184,7 @@ def abbreviate(d):
         if isinstance(v, list):
             return [ab(x) for x in v]
         if isinstance(v, tuple) and v and v[0] == 'file':
-            return ('file', v[1], v[2], v[3] if len(v[3]) <= 24 else v[3][:24] + b'...(%d bytes)' % len(v[3]))
+            return ('file', v[1], v[2], v[3] if len(v[3]) <= 24 else v[3][:24] + b'...(%d bytes)' % len(v[3]), v[4])
         return v
     return {k: ab(v) for k, v in d.items()}
 
@@ -201,11 +204,33 @@ def classify(parts, what):
     return what[0]
 
 
+_prev = {}
+
+
+def judge_case(om, case):
+    return judge(om, [tuple(p) for p in case['parts']], case['boundary'], case['quoted'], case['M'], case['framing'])
+
+
 def run(res, om, parts, boundary, quoted, M, framing):
     c = res['counters']
     case = {'parts': [list(p) for p in parts], 'boundary': boundary, 'quoted': quoted, 'M': M, 'framing': framing}
     core.track(res, case)
     v, seen, body = judge(om, parts, boundary, quoted, M, framing)
+    if v is not None and v != 'skip':
+        # does the request fail on its own, or only after the request served before it in this process?
+        fresh = sut.load(fresh=True)
+        v1, _, _ = judge_case(fresh, case)
+        if v1 is None and _prev.get('case') is not None:
+            fresh = sut.load(fresh=True)
+            judge_case(fresh, _prev['case'])
+            v2, _, _ = judge_case(fresh, case)
+            if v2 is not None and v2 != 'skip':
+                core.add_violation(res, {'seq': [_prev['case'], case]},
+                                   f'after another multipart request in the same process: {v2[1]}', sig='history:' + v2[0])
+                c['history_dependent'] += 1
+            v = None
+        sut.load(fresh=True)
+    _prev['case'] = case
     if v == 'skip':
         c['ambiguous_bodies_skipped'] += 1
         return
@@ -274,6 +299,15 @@ def work(spec):
 
 def replay(case):
     om = sut.load()
+    if 'seq' in case:
+        fresh = sut.load(fresh=True)
+        v = None
+        for cs in case['seq']:
+            v, _, _ = judge_case(fresh, cs)
+        if v is None or v == 'skip':
+            return None
+        d = [[(p[0], p[1]) + ((p[2], p[3]) if p[0] == 'f' else ()) for p in cs['parts']] for cs in case['seq']]
+        return f'two multipart posts served one after the other in one process, {d[0]} then {d[1]}: the second one: {v[1]}'
     parts = [tuple(p) for p in case['parts']]
     v, seen, body = judge(om, parts, case['boundary'], case['quoted'], case['M'], case['framing'])
     if v is None or v == 'skip':
